@@ -14,10 +14,11 @@ UNIVERSE = {"quick": ' NodeNames = {"n1", "n2", "n3"}\n LinkNames = {"l1", "l2"}
 MC_UNIVERSE = ' NodeNames = {"n1", "n2"}\n LinkNames = {"l1", "l2"}\n PatNames = {"p1"}\n CurveNames = {"c1"}\n SrcNames = {"s1"}\n CtlNames = {"k1"}\n'
 
 
-def gen_histories(ck, mode, n, depth, seed):
-    """mode 'sim': n random histories of length depth; mode 'bfs': every history of length depth"""
+def gen_histories(ck, mode, n, depth, seed, preload=0):
+    """mode 'sim': n random histories of length depth; mode 'bfs': every history of length depth; every history is returned
+    as a list of entries whose first one carries the key 'preload'"""
     cfg = ("SPECIFICATION Spec\nINVARIANT Emit\nCHECK_DEADLOCK FALSE\nCONSTANTS\n" + UNIVERSE["quick"] +
-           " Record = TRUE\n MaxLen = %d\n" % depth)
+           " Record = TRUE\n MaxLen = %d\n Preload = %d\n" % (depth, preload))
     if mode == "sim":
         per = max(1, n // common.NCPU)
 
@@ -39,8 +40,21 @@ def gen_histories(ck, mode, n, depth, seed):
         k = json.dumps([[x["op"], x["args"]] for x in h])
         if k not in seen:
             seen.add(k)
+            h[0]["preload"] = preload
             out.append(h)
     return out
+
+
+def preloaded(w, preload):
+    """the real counterpart of Registry!Init"""
+    wn = w.network.WaterNetworkModel()
+    if preload:
+        wn.add_pattern("p1", [1.0, 0.5])
+        wn.add_curve("c1", "HEAD", [(0.01, 30.0)])
+        wn.add_junction("n1", base_demand=0.001, elevation=1.0)
+        wn.add_junction("n2", base_demand=0.001, elevation=1.0)
+        wn.add_pipe("l1", "n1", "n2")
+    return wn
 
 
 # ----------------------------------------------------------------------------- replay on the real model
@@ -136,6 +150,14 @@ def project(w, wn):
     names("curves", lambda: list(wn.curve_name_list))
     names("sources", lambda: list(wn.source_name_list))
     names("controls", lambda: list(wn.control_name_list))
+    names("pump_curves", lambda: [n for n, _ in wn.curves.pump_curves()])
+    names("volume_curves", lambda: [n for n, _ in wn.curves.volume_curves()])
+    for key, lst in (("pump_curves", "pump_curve_names"), ("volume_curves", "volume_curve_names")):
+        try:
+            if v[key] is not None and sorted(getattr(wn.curves, lst)) != v[key]:
+                errs.append("curves.%s differs from its iterator" % lst)
+        except Exception as e:
+            errs.append("curves.%s raised %s" % (lst, type(e).__name__))
     # name lists and counts must agree with the iterators
     for key, lst, cnt in (("junctions", "junction_name_list", "num_junctions"), ("tanks", "tank_name_list", "num_tanks"),
                           ("reservoirs", "reservoir_name_list", "num_reservoirs"), ("pipes", "pipe_name_list", "num_pipes"),
@@ -165,7 +187,7 @@ def project(w, wn):
         for n in wn.node_name_list:
             if sorted(wn.get_links_for_node(n, "INLET")) != sorted(adj[n]["in"]) or \
                sorted(wn.get_links_for_node(n, "OUTLET")) != sorted(adj[n]["out"]) or \
-               sorted(wn.get_links_for_node(n, "ALL")) != sorted(adj[n]["in"] + adj[n]["out"]):
+               sorted(wn.get_links_for_node(n, "ALL")) != sorted(set(adj[n]["in"] + adj[n]["out"])):   # a loop is listed once
                 errs.append("get_links_for_node(%s) disagrees with the links' end nodes" % n)
         G = wn.to_graph()
         if sorted((a, b, k) for a, b, k in G.edges(keys=True)) != sorted((a, b, n) for n, (a, b) in v["ends"].items()) or \
@@ -219,7 +241,7 @@ def expected_view(view):
 def replay(hist):
     """returns list of (step, clause, detail)"""
     w = common.import_wntr()
-    wn = w.network.WaterNetworkModel()
+    wn = preloaded(w, hist[0].get("preload", 0) if hist else 0)
     out = []
     for i, h in enumerate(hist):
         before, _ = project(w, wn)
@@ -267,7 +289,7 @@ def main(tier, replay_path):
         cfg = ("SPECIFICATION Spec\nINVARIANT EndNodesExist\nINVARIANT RefsExist\nINVARIANT TypedPartition\n" +
                ("PROPERTY RefusalUnchanged\n" if tier == "thorough" else "") +
                "CHECK_DEADLOCK FALSE\nCONSTRAINT Bound\nCONSTANTS\n" + MC_UNIVERSE +
-               " Record = FALSE\n MaxLen = %d\n" % (6 if tier == "quick" else 7))
+               " Record = FALSE\n MaxLen = %d\n Preload = 0\n" % (5 if tier == "quick" else 6))
         r = common.run_tlc("Registry", cfg, workers=common.NCPU, timeout=3000)
         if r.violation:
             ck.violation("C14.model", "Registry.tla invariant violated", {"tlc": r.out[-3000:]})
@@ -277,9 +299,12 @@ def main(tier, replay_path):
         hs = gen_histories(ck, "bfs", 0, 2, common.SEED)
         ck.cov["counters"]["bfs_histories_depth2"] = len(hs)
         n, depth = (1600, 14) if tier == "quick" else (40000, 22)
-        sim = gen_histories(ck, "sim", n, depth, common.SEED + 1)
+        sim = gen_histories(ck, "sim", n // 2, depth, common.SEED + 1) + gen_histories(ck, "sim", n // 2, depth, common.SEED + 2, preload=1)
         ck.cov["counters"]["simulated_histories"] = len(sim)
         hs += sim
+        b2 = gen_histories(ck, "bfs", 0, 2, common.SEED, preload=1)
+        ck.cov["counters"]["bfs_histories_depth2_populated"] = len(b2)
+        hs += b2
         if tier == "thorough":
             b3 = gen_histories(ck, "bfs", 0, 3, common.SEED)
             ck.cov["counters"]["bfs_histories_depth3"] = len(b3)
